@@ -28,8 +28,8 @@ end App
 
 open App in
 def Pre (s : App) (c : CSet) : Bool :=
-  -- 1. no cut-off
-  decide (s.index.length ≤ s.params.maxVals) &&
+  -- 1. no cut-off: the entries that count against MaxValidators fit
+  decide ((s.index.filter (fun e => match s.getVal e.2 with | some v => cand v | none => false)).length ≤ s.params.maxVals) &&
   -- 2. everything referenced exists
   s.index.all (fun e => (s.getVal e.2).isSome) && s.last.all (fun e => (s.getVal e.1).isSome) &&
   -- 3. the loop's `break` hides nobody
@@ -51,6 +51,12 @@ def Pre (s : App) (c : CSet) : Bool :=
   -- 9. somebody stays, and powers fit CometBFT's bounds
   s.vals.any (fun v => hasCandEntry s v) &&
   decide (sumInts ((s.vals.filter (hasCandEntry s)).map (fun v => ((powerOf v.tokens : Nat) : Int))) ≤ maxTotalPower) &&
+  -- 11. the unbonding queue is sound: every queued operator is an Unbonding record filed under its own time and
+  --     height, once; an emptied validator has no tokens left; the unbonding period is positive
+  s.ubq.all (fun q => q.2.all (fun op => match s.getVal op with
+    | some v => v.ubTime == q.1.1 && v.ubHeight == q.1.2 && v.status == .unbonding && (v.shares != 0 || v.tokens == 0)
+    | none => false)) &&
+  nodupNat (s.ubq.flatMap (·.2)) && decide (s.params.unbond > 0) &&
   -- 10. the pools can carry the transfers (tokens of validators that move are in the pool they move from)
   decide (sumInts ((s.vals.filter (fun v => hasCandEntry s v && v.status != .bonded)).map (fun v => (v.tokens : Int))) ≤ s.notBonded +
           sumInts ((s.vals.filter (fun v => amem v.op s.last && !hasCandEntry s v)).map (fun v => (v.tokens : Int)))) &&
